@@ -62,7 +62,8 @@ def make_plan(tape, prop):
         outs = ["--python_out"]
     plan["outs"] = outs
     plan["opt"] = tape.weighted([20, 1, 1, 1, 1, 1, 1, 1, 1, 1, 1, 1, 1, 1, 1])
-    plan["io"] = tape.weighted([14, 1, 1, 1, 1])      # none / read EIO / write ENOSPC / torn close / outdir vanishes
+    plan["io"] = tape.weighted([14, 1, 1, 1, 1, 1])   # none / read EIO / write ENOSPC / torn close / outdir vanishes /
+                                                      # an input file (main, include or patch) is not UTF-8
     plan["io_at"] = tape.draw(8)
     return plan
 
@@ -197,6 +198,8 @@ class CompRun(object):
             fs.faults[("write", plan["io_at"] % 4)] = 28
         elif io == 3:
             fs.faults[("close", plan["io_at"] % 4)] = 28
+        elif io == 5:
+            fs.faults[("undecodable", plan["io_at"] % 3)] = 1
         elif io == 4:
             fs.vanish_on_write = "/w/out"
         self.trace.append("argv: %s" % " ".join(argv))
@@ -234,6 +237,9 @@ class CompRun(object):
         self.log.update(("%s|%s|%s" % (argv, outcome, hashlib.sha1(text.encode()).hexdigest())).encode())
         self.states.add("%s|%s|%s" % (syntax, outcome, ",".join(sorted(set(c["k"] + c.get("cls", "") for c in plan["corruptions"])))))
         io_fired = bool(fired) or (io == 4 and bool(fs.writes))
+        if exc is None and "undecodable" in fired:
+            return self.v("C13", "success-with-unreadable-input", "C13/success-although-an-input-is-not-utf-8",
+                          "prophyc.main returned normally although %s could not be decoded" % (fs.fired,))
         if exc is None:
             return self.check_success(fs, argv, inputs, io_fired, nodes)
         if outcome == "SystemExit":
